@@ -180,8 +180,8 @@ def guarded(rec, sig, case, fn):
 
 
 def run_driver(prop, tier, t0, tasks, dispatch, rule, assumptions, replay_fn,
-               level='exploration', extra_cov=None, exhaustive=True):
-    """Common main() of the input-sweep drivers."""
+               level='exploration', extra_cov=None, exhaustive=True, machines=None):
+    """Common main() of the input-sweep drivers (optionally followed by BFS machines)."""
     from . import run
     rep = run.Report()
     run.pmerge(dispatch, tasks, rep)
@@ -189,10 +189,43 @@ def run_driver(prop, tier, t0, tasks, dispatch, rule, assumptions, replay_fn,
     cov = dict(
         evaluations=rep.counts.get('evaluations', 0),
         distinct_nontrivial=rep.counts.get('nontrivial', 0),
-        rule=rule, exhaustive=exhaustive and not rep.caps, tasks=len(tasks))
+        rule=rule, tasks=len(tasks))
+    if machines:
+        from .explore import bfs
+        deep = dict(states=0, transitions=0, validated=0)
+        bounds = {}
+        for mach, depth in machines:
+            r = run.Report()
+            res = bfs(mach, depth, r)
+            run.close_pool()
+            for v in r.violations:
+                v['case']['names'] = list(mach.names)
+            for smp in r.samples:
+                smp['names'] = list(mach.names)
+            rep.merge(r)
+            for k in deep:
+                deep[k] += res[k]
+            bounds[mach.name] = dict(depth_completed=res['completed_depth'],
+                                     states_per_layer=res['layers'])
+        cov.update(states=deep['states'], transitions=deep['transitions'],
+                   traces_validated_against_impl=deep['validated'], history_bounds=bounds)
+        cov['evaluations'] += deep['transitions']
+    cov['exhaustive'] = exhaustive and not rep.caps
     if extra_cov:
         cov.update(extra_cov)
     return run.finish(prop, level, tier, rep, t0, cov, assumptions, replay_fn=replay_fn)
+
+
+def replay_with_machines(by_task):
+    """Replay: traces go to a permissive BddMachine, everything else to the task replay."""
+    def replay(case):
+        if 'trace' in case:
+            from .machines import BddMachine
+            mm = BddMachine(tuple(case['names']), max_handles=9, max_ext=9, with_let=True,
+                            with_quant=True, with_sort=True)
+            return mm.replay(case)
+        return by_task(case)
+    return replay
 
 
 def replay_by_task(dispatch):
